@@ -90,6 +90,7 @@ class Index:
         self.classes = {}  # name -> [ClassInfo]
         self.module_funcs = {}  # (relpath, name) -> FuncInfo
         self.module_consts = {}  # (relpath, name) -> value node of a module-level `NAME = <expr>` assigned exactly once
+        self.module_aliases = {}  # (relpath, local name) -> relpath of the package module that name is bound to by an import
         self.parse_errors = []
         base = os.path.join(self.root, pkg)
         if not os.path.isdir(base):
@@ -117,6 +118,7 @@ class Index:
         for rel, (src, tree) in self.files.items():
             for node in tree.body:
                 self._index_top(rel, node)
+                self._index_import(rel, node)
         self._sub = None
 
     def _index_top(self, rel, node):
@@ -139,6 +141,31 @@ class Index:
             for sub in ast.iter_child_nodes(node):
                 if isinstance(sub, (ast.ClassDef, ast.FunctionDef)):
                     self._index_top(rel, sub)
+
+    def _module_rel(self, rel, module, level):
+        """relpath of the package module `module` imported from file rel (level = leading dots), or None"""
+        if level:
+            base = rel.split("/")[:-1]
+            base = base[:len(base) - (level - 1)] if level > 1 else base
+            parts = base + (module.split(".") if module else [])
+        else:
+            parts = module.split(".") if module else []
+        for cand in ("/".join(parts) + ".py", "/".join(parts) + "/__init__.py"):
+            if cand in self.files:
+                return cand
+        return None
+
+    def _index_import(self, rel, node):
+        if isinstance(node, ast.ImportFrom):
+            for a in node.names:
+                m = self._module_rel(rel, ((node.module + ".") if node.module else "") + a.name, node.level)
+                if m:
+                    self.module_aliases[(rel, a.asname or a.name)] = m
+        elif isinstance(node, ast.Import):
+            for a in node.names:
+                m = self._module_rel(rel, a.name, 0)
+                if m and a.asname:
+                    self.module_aliases[(rel, a.asname)] = m
 
     # ---------------------------------------------------------------- look-ups
     def digest(self):
